@@ -11,7 +11,7 @@
 (* Every certificate named here is materialised with real signatures of the *)
 (* other validators, so any derived content is constructible.               *)
 (***************************************************************************)
-EXTENDS Replica, TLC, Json
+EXTENDS Replica, TLC, Json, SequencesExt
 
 CONSTANTS Self,          \* the replica under test
           MaxV,          \* views considered by the environment
@@ -73,6 +73,34 @@ RecvRejected ==
             \cup pick(rej({x \in Proposals(vs) : x.inv = "sig"}))
     IN cands # {} /\ Recv(RandomElement(cands))
 
+(* BURSTS: the votes of ALL other validators for one view, delivered one after the other (several handler steps composed into    *)
+(* one environment action, each recorded in hist). A lagging replica thereby assembles a certificate LOCALLY - also for a view    *)
+(* ahead of its own (commit.rs / timeout.rs: start_new_view(message.view.next())), which single random deliveries hardly reach.   *)
+OthersSeq == SetToSeq(Others)
+StepOne(st, m) ==
+    LET mv == WithValid(m) IN
+    IF Blocked(st.rs, st.store, mv) THEN st
+    ELSE LET res == Handle(Self, st.rs, st.store, mv)
+         IN [rs |-> res.rs, store |-> res.store, dur |-> IF res.persist THEN Dur(res.rs) ELSE st.dur,
+             hist |-> Append(st.hist, [a |-> "recv", m |-> m, ok |-> res.ok])]
+RECURSIVE FoldSteps(_, _)
+FoldSteps(st, ms) == IF ms = <<>> THEN st ELSE FoldSteps(StepOne(st, Head(ms)), Tail(ms))
+TakeBurst(ms) ==
+    LET st == FoldSteps([rs |-> rs, store |-> store, dur |-> dur, hist |-> hist], ms)
+    IN rs' = st.rs /\ store' = st.store /\ dur' = st.dur /\ hist' = st.hist
+BurstViews == {w \in 0..MaxV : w = rs.view \/ w = rs.view + 1}
+TimeoutBurst ==
+    /\ BurstViews # {}
+    /\ LET w == RandomElement(BurstViews)
+           lower == {x \in 0..MaxV : x < w}
+           hv == RandomElement({NoVote} \cup Votes(lower))
+           hq == RandomElement({NoVote} \cup NestedQCs(lower))
+       IN TakeBurst([i \in 1..Len(OthersSeq) |-> [t |-> "timeout", from |-> OthersSeq[i], view |-> w, hv |-> hv, hq |-> hq, inv |-> "none"]])
+CommitBurst ==
+    /\ BurstViews # {}
+    /\ LET v == RandomElement(Votes(BurstViews))
+       IN TakeBurst([i \in 1..Len(OthersSeq) |-> [t |-> "commit", from |-> OthersSeq[i], vote |-> v, inv |-> "none"]])
+
 Timer == Take(OnTimer(Self, rs, store), [a |-> "timer"])
 Crash == LET b == OnBoot(Self, Restart(dur), store)
          IN /\ rs' = b.rs /\ store' = b.store /\ dur' = IF b.persist THEN Dur(b.rs) ELSE dur
@@ -80,11 +108,11 @@ Crash == LET b == OnBoot(Self, Restart(dur), store)
 Sync == \E p \in Pays : store' = Append(store, p) /\ hist' = Append(hist, [a |-> "sync", pay |-> p, num |-> Len(store)]) /\ UNCHANGED <<rs, dur>>
 
 Next == /\ Len(hist) < Depth
-        /\ (RecvAccepted \/ RecvRejected \/ Timer \/ Crash \/ (Len(store) < 2 /\ Sync))
+        /\ (RecvAccepted \/ RecvRejected \/ Timer \/ Crash \/ (Len(store) < 2 /\ Sync) \/ TimeoutBurst \/ CommitBurst)
 Spec == Init /\ [][Next]_vars
 
 (* printed once per behaviour that reaches the depth *)
-Done == Len(hist) = Depth => PrintT(<<"BEHAVIOUR", ToJson(hist)>>)
+Done == Len(hist) >= Depth => PrintT(<<"BEHAVIOUR", ToJson(hist)>>)
 
 (* single-replica properties (C05) *)
 Monotone == [][(hist' = <<>> \/ hist'[Len(hist')].a # "crash") => (rs.view <= rs'.view /\ rs.hcq.view <= rs'.hcq.view /\ rs.htq.view <= rs'.htq.view)]_vars
